@@ -329,7 +329,9 @@ fn sweep_many_types(cyc: &Cycle, rec: &Recorder, thorough: bool) -> Tally {
                 let n = k + 7;
                 let trans: Vec<(i64, usize)> = (0..n).map(|i| (400_000_000 + 86_400 * i as i64, (1 + i * stride) % k)).collect();
                 let rule = if rule_kind == 1 { Some(MRule::Fixed(types[trans[n - 1].1])) } else { None };
-                let z = MZone { trans, types, leaps: vec![], rule };
+                // strides 255 / 257 also carry a leap table (more than 256 types x leap seconds)
+                let leaps = if stride == 255 || stride == 257 { vec![(5, 1), (400_000_000 + 86_400 * 40 + 7, 2)] } else { vec![] };
+                let z = MZone { trans, types, leaps, rule };
                 let probes = probes_for(&z);
                 check_zone(cyc, &z, &probes, rec, "many_types", &mut t2);
                 t2
@@ -343,6 +345,38 @@ fn sweep_many_types(cyc: &Cycle, rec: &Recorder, thorough: bool) -> Tally {
         .reduce(Tally::default, Tally::merge);
     rec.sub("many_types", json!({"zones": t.zones, "lookups": t.evals, "type_counts": ks}));
     t
+}
+
+/// long call histories on one thread (state recycled by a wrapping counter or a fixed-capacity table): a lookup in zone A, N
+/// lookups in zone B, a different lookup in zone A, for N = 2^k - 2 .. 2^k + 1, k = 4..=17; A has three types, B two
+fn sweep_long_histories(cyc: &Cycle, rec: &Recorder) -> Tally {
+    let mut tl = Tally::default();
+    let r = guard(|| {
+        let mut tl = Tally::default();
+        let ta = base_types();
+        let za = MZone { trans: vec![(400_000_000, 1), (401_000_000, 2), (402_000_000, 0), (959_000_000, 2)], types: ta.clone(), leaps: vec![(78_796_800, 1)], rule: Some(MRule::Fixed(ta[2])) };
+        let tb = vec![MType::new(0, false, Some("GMT")), MType::new(3600, true, Some("BST"))];
+        let zb = MZone { trans: vec![(500_000_000, 1), (510_000_000, 0), (520_000_000, 1)], types: tb.clone(), leaps: vec![], rule: Some(MRule::Fixed(tb[1])) };
+        let probes_a = [401_500_000i64, 959_500_000, 400_000_000, 402_000_005];
+        let mut j = 0usize;
+        for k in 4..=17u32 {
+            for d in [-2i64, -1, 0, 1] {
+                let n = ((1i64 << k) + d) as usize;
+                let fillers: Vec<i64> = (0..n).map(|f| 505_000_000 + (f as i64 % 4000) * 3600).collect();
+                check_zone(cyc, &za, &[probes_a[j % 4]], rec, "long_histories", &mut tl);
+                check_zone(cyc, &zb, &fillers, rec, "long_histories", &mut tl);
+                check_zone(cyc, &za, &[probes_a[(j + 1) % 4]], rec, "long_histories", &mut tl);
+                j += 1;
+            }
+        }
+        tl
+    });
+    match r {
+        Ok(t) => tl = tl.merge(t),
+        Err(m) => rec.violation("long_histories", json!({"kind":"long_histories"}), json!("no panic"), json!(m)),
+    }
+    rec.sub("long_histories", json!({"lookups": tl.evals}));
+    tl
 }
 
 /// every +-1 walk of the cumulative correction (length 1..=L) with records 28 days apart, crossed with transitions that sit
@@ -498,6 +532,7 @@ pub fn run(args: &Args) -> i32 {
         .reduce(Tally::default, Tally::merge);
     rec.sub("corpus", json!({"distinct_corpus_zones": zones.len(), "files_not_expressible_in_the_model": skipped, "zones_checked": ct.zones, "lookups": ct.evals}));
     let total = total.merge(ct).merge(sweep_many_types(&cyc, &rec, thorough)).merge(sweep_leap_walks(&cyc, &rec, thorough));
+    let total = if args.digest_mode { total } else { total.merge(sweep_long_histories(&cyc, &rec)) };
     rec.sub("table", json!({"shapes": work.len(), "zones": total.zones, "zones_refused_as_model_predicts": total.rejected, "lookups": total.evals, "max_table_len": max_n, "all_index_sequences_up_to_len": all_seq_n}));
     rec.add(total.evals, total.nontrivial);
     rec.digest("table", total.digest);
